@@ -339,7 +339,12 @@ class World:
                 # Engine.transfer with an explicit payload (an iteration engine): the rows of the target
                 t = self.pool[tn]
                 e = self.engines[en]
-                payload = iteration.RowSequence(self.rows_of(t))
+                try:
+                    rows = self.rows_of(t)
+                except Exception:  # noqa: BLE001
+                    rows = []      # a target the harness cannot evaluate (e.g. a join inside an iteration engine): the
+                    #                payload's CONTENT is never observed, only where it ends up
+                payload = iteration.RowSequence(rows)
                 res = e.transfer(t, payload)
                 return self.report(n, "same" if res is t else "new", res)
             case ["snap"]:
